@@ -31,7 +31,7 @@ func init() {
 func runC07(x *Ctx) {
 	x.C.Rule("C07.R1", "field bijection token <-> model <-> schema; optional fields serialised exactly when set", 8)
 	x.C.Rule("C07.R2", "codec pairing by function name", 2)
-	x.C.Rule("C07.R3", "key-algorithm tables", 3)
+	x.C.Rule("C07.R3", "key-algorithm tables; the header sealed is the one the verifier expects", 4)
 	x.C.Rule("C07.R4", "constructors bound every serialised timestamp like the decoder; validate reads time bounds at wire resolution", 11)
 	x.C.Rule("C07.R5", "construct-side counterparts of decode-side validators", 5)
 	x.C.Rule("C07.R6", "generic decoder = typed decoders", 1)
@@ -61,6 +61,71 @@ func runC07(x *Ctx) {
 		x.C.Obl("C07.R3", "emitted-subset-parsed", x.pos(parse), "every multicodec a generated key's DID carries is accepted by did.Parse (else its tokens cannot be decoded)", miss(emitted, parsed) == "" && len(emitted) >= 6, "emitted but rejected by Parse: "+miss(emitted, parsed))
 		x.C.Obl("C07.R3", "parsed-subset-table", x.pos(pub), "every accepted multicodec has an unmarshaller", miss(parsed, table) == "", miss(parsed, table))
 		x.C.Obl("C07.R3", "generators", x.pos(from), "generatable algorithms: Ed25519, secp256k1, P-256, P-384, P-521, RSA", len(emitted) == 6, fmt.Sprint(keysOf(emitted)))
+	}
+	// the header written when sealing is the header the verifier will expect: the verifier compares the envelope's
+	// header with varsig.Encode(type of the issuer's key) (C06.R1); the sealing side must call the same function
+	// with the type of the signing key, and no other function of package varsig
+	if to := x.fn("C07.R3", "token/internal/envelope.ToIPLD"); to != nil {
+		bad, n := "", 0
+		for _, p := range x.pathsQuiet(to) {
+			p.InstrsIn(func(in ssa.Instruction, c *paths.Ctx) {
+				call, ok := in.(*ssa.Call)
+				if !ok {
+					return
+				}
+				ct := c.Term(call)
+				if ct == nil || ct.Op != "call" || !strings.HasPrefix(ct.Name, "token/internal/varsig.") {
+					return
+				}
+				n++
+				okArg := false
+				if len(ct.Args) == 1 {
+					a := ct.Args[0].String()
+					okArg = a == "invoke[github.com/libp2p/go-libp2p/core/crypto.PrivKey.Type](arg0)" ||
+						a == "invoke[github.com/libp2p/go-libp2p/core/crypto.PubKey.Type](invoke[github.com/libp2p/go-libp2p/core/crypto.PrivKey.GetPublic](arg0))" ||
+						a == "invoke[github.com/libp2p/go-libp2p/core/crypto.Key.Type](arg0)"
+				}
+				if ct.Name != "token/internal/varsig.Encode" || !okArg {
+					bad += fmt.Sprintf("%s: sealing derives the header with %s: the verifier expects varsig.Encode(type of the key)\n", x.P.Pos(call.Pos()), ct)
+				}
+			})
+		}
+		// and every path that seals passed through it
+		for _, p := range x.pathsQuiet(to) {
+			if o, _ := p.ErrorOutcome(); o == paths.Failure || p.End != paths.EndReturn {
+				continue
+			}
+			has := false
+			p.InstrsIn(func(in ssa.Instruction, c *paths.Ctx) {
+				if call, ok := in.(*ssa.Call); ok {
+					if ct := c.Term(call); ct != nil && ct.Op == "call" && ct.Name == "token/internal/varsig.Encode" && p.HasFact(eqs(ct.String()+"#1", "const(nil)"), true) {
+						has = true
+					}
+				}
+			})
+			if !has {
+				bad += "a path seals a token without a successful varsig.Encode(type of the key): the header comes from somewhere else\n" + p.String() + "\n"
+			}
+			// the variable that receives Encode's result holds it, unchanged, when the envelope is assembled
+			var cells []*ssa.Alloc
+			var encTerm string
+			p.InstrsIn(func(in ssa.Instruction, c *paths.Ctx) {
+				if st, ok := in.(*ssa.Store); ok {
+					if a, isA := st.Addr.(*ssa.Alloc); isA {
+						if v := c.Term(st.Val); v != nil && v.Op == "extract" && v.Name == "#0" && len(v.Args) == 1 && v.Args[0].Op == "call" && v.Args[0].Name == "token/internal/varsig.Encode" {
+							cells = append(cells, a)
+							encTerm = v.String()
+						}
+					}
+				}
+			})
+			for _, a := range cells {
+				if lv := p.LastStore(a); lv != nil && lv.String() != encTerm {
+					bad += fmt.Sprintf("%s: the header variable is overwritten with %s after varsig.Encode filled it\n", x.P.Pos(a.Pos()), lv)
+				}
+			}
+		}
+		x.C.Obl("C07.R3", "header-writer:ToIPLD", x.pos(to), "the header sealed is varsig.Encode(type of the signing key), the function the verifier compares with", bad == "" && n > 0, firstLines(dedupLines(bad), 14))
 	}
 
 	timestampBounds(x)
